@@ -9,96 +9,374 @@ import (
 
 // HeaderSync (C33): the count condition of header_sync.VerifyHeader and the arguments it hands to
 // signature.VerifyMultiSignature, regenerated from source.
+//
+// Sites are located by ROLE (astnorm.go): the count condition is "the guard directly under which VerifyHeader — or an
+// unexported helper of the package it calls — returns a non-nil error and which compares the number of the header's
+// bookkeepers with the number of stored consensus peers"; both numbers are recognised after inlining locals (also the
+// parallel form `a, b := len(x), len(y)`) and substituting the helper's parameters by the caller's arguments, as
+// `len(<..>.Bookkeepers)` and `len(<..>.PeerMap)` (struct fields, not locals). `x < y`, `y > x`, negated / else-branch /
+// early-return spellings give the same fact.
 func init() { Register("HeaderSync", genHeaderSync) }
 
-func genHeaderSync(repo string) (string, error) {
-	const file = "smartcontract/service/native/cross_chain/header_sync/utils.go"
-	const fnName = "VerifyHeader"
-	fset, f, err := parseFile(repo, file)
+// ---------------------------------------------------------------------------------------------------------------
+// deep guarded walk (shared with facts_auth.go): every simple statement reachable from an entry function through
+// same-package helpers, with the conditions guarding it, everything expressed in the ENTRY function's terms.
+
+type dgFrame struct {
+	fn    *ast.FuncDecl
+	defs  *defTable
+	subst map[string]ast.Expr // parameter -> caller's argument (already in entry terms)
+}
+
+func (f *dgFrame) norm(e ast.Expr) ast.Expr { return substIdents(inlineLocals(e, f.defs), f.subst) }
+
+type dgSite struct {
+	stmt   ast.Stmt
+	guards []cond // outermost first, normalised to entry terms
+	f      *dgFrame
+	root   ast.Stmt // the statement of the entry function this site was reached from (the site itself at depth 0)
+}
+
+// dgDefs is singleDefs plus the parallel definition `a, b := x, y` (as many values as names): each name gets its value.
+func dgDefs(fn *ast.FuncDecl) *defTable {
+	t := singleDefs(fn)
+	ast.Inspect(fn.Body, func(n ast.Node) bool {
+		as, ok := n.(*ast.AssignStmt)
+		if !ok || as.Tok != token.DEFINE || len(as.Lhs) < 2 || len(as.Lhs) != len(as.Rhs) {
+			return true
+		}
+		for i, l := range as.Lhs {
+			id, ok := l.(*ast.Ident)
+			if !ok || id.Name == "_" {
+				continue
+			}
+			for k := range t.defs {
+				if t.defs[k].name == id.Name && t.defs[k].pos == as.End() && t.defs[k].rhs == nil {
+					t.defs[k].rhs = as.Rhs[i]
+				}
+			}
+		}
+		return true
+	})
+	return t
+}
+
+func dgSites(funcs map[string]*ast.FuncDecl, entry *ast.FuncDecl, depth int) []dgSite {
+	var out []dgSite
+	onStack := map[*ast.FuncDecl]bool{}
+	var rec func(f *dgFrame, outer []cond, root ast.Stmt, d int)
+	rec = func(f *dgFrame, outer []cond, root ast.Stmt, d int) {
+		onStack[f.fn] = true
+		defer func() { onStack[f.fn] = false }()
+		guardsOf(f.fn.Body.List, nil, func(s ast.Stmt, gs []cond) {
+			all := append([]cond{}, outer...)
+			for _, g := range gs {
+				all = append(all, cond{f.norm(g.e), g.pos})
+			}
+			r := root
+			if r == nil {
+				r = s
+			}
+			out = append(out, dgSite{s, all, f, r})
+			if d == 0 {
+				return
+			}
+			ast.Inspect(s, func(n ast.Node) bool {
+				if _, isLit := n.(*ast.FuncLit); isLit {
+					return false
+				}
+				ce, ok := n.(*ast.CallExpr)
+				if !ok {
+					return true
+				}
+				callee := calleeOf(funcs, ce)
+				if callee == nil || onStack[callee] {
+					return true
+				}
+				if se, ok := ce.Fun.(*ast.SelectorExpr); ok { // pkg.F(..) of another package is not a helper of this one
+					if id, ok := se.X.(*ast.Ident); ok && id.Obj == nil && callee.Recv == nil {
+						return true
+					}
+				}
+				ps := paramNames(callee)
+				if len(ps) != len(ce.Args) {
+					return true
+				}
+				sub := map[string]ast.Expr{}
+				for i, p := range ps {
+					sub[p] = f.norm(ce.Args[i])
+				}
+				rec(&dgFrame{callee, dgDefs(callee), sub}, all, r, d-1)
+				return true
+			})
+		})
+	}
+	rec(&dgFrame{entry, dgDefs(entry), nil}, nil, nil, depth)
+	return out
+}
+
+// dgLiterals splits guards into the literals that all hold at the site: `a && b` (true) and `a || b` (false) are split,
+// `!a` flips the polarity, parentheses go.
+func dgLiterals(gs []cond) []cond {
+	var out []cond
+	var add func(e ast.Expr, pos bool)
+	add = func(e ast.Expr, pos bool) {
+		e = stripParens(e)
+		switch x := e.(type) {
+		case *ast.UnaryExpr:
+			if x.Op == token.NOT {
+				add(x.X, !pos)
+				return
+			}
+		case *ast.BinaryExpr:
+			if (x.Op == token.LAND && pos) || (x.Op == token.LOR && !pos) {
+				add(x.X, pos)
+				add(x.Y, pos)
+				return
+			}
+		}
+		out = append(out, dgCanon(cond{e, pos}))
+	}
+	for _, g := range gs {
+		add(g.e, g.pos)
+	}
+	return out
+}
+
+var dgFlip = map[token.Token]token.Token{token.LSS: token.GEQ, token.GEQ: token.LSS, token.GTR: token.LEQ, token.LEQ: token.GTR,
+	token.EQL: token.NEQ, token.NEQ: token.EQL}
+
+// dgCanon: a negated comparison is written as the positive comparison with the complementary operator, so that
+// `if a < b { reject }`, `if a >= b { accept } else { reject }` and the early-return spelling give the same literal
+func dgCanon(c cond) cond {
+	if be, ok := stripParens(c.e).(*ast.BinaryExpr); ok && !c.pos {
+		if f, ok := dgFlip[be.Op]; ok {
+			if id, isNil := stripParens(be.Y).(*ast.Ident); !(isNil && id.Name == "nil") {
+				return cond{&ast.BinaryExpr{X: be.X, Op: f, Y: be.Y}, true}
+			}
+		}
+	}
+	return c
+}
+
+// dgNegate: the complementary literal
+func dgNegate(c cond) cond { return dgCanon(cond{c.e, !c.pos}) }
+
+// dgBoolToLean translates a boolean expression over integer comparisons (&&, ||, !, < <= > >= == !=) into a Lean Bool term.
+func dgBoolToLean(fset *token.FileSet, e ast.Expr, atom func(string) (string, bool)) (string, error) {
+	e = stripParens(e)
+	switch x := e.(type) {
+	case *ast.UnaryExpr:
+		if x.Op == token.NOT {
+			in, err := dgBoolToLean(fset, x.X, atom)
+			if err != nil {
+				return "", err
+			}
+			return "(!" + in + ")", nil
+		}
+	case *ast.BinaryExpr:
+		switch x.Op {
+		case token.LAND, token.LOR:
+			l, err := dgBoolToLean(fset, x.X, atom)
+			if err != nil {
+				return "", err
+			}
+			r, err := dgBoolToLean(fset, x.Y, atom)
+			if err != nil {
+				return "", err
+			}
+			return "(" + l + " " + x.Op.String() + " " + r + ")", nil
+		case token.LSS, token.LEQ, token.GTR, token.GEQ, token.EQL, token.NEQ:
+			l, err := intExprToLeanF(fset, x.X, atom)
+			if err != nil {
+				return "", err
+			}
+			r, err := intExprToLeanF(fset, x.Y, atom)
+			if err != nil {
+				return "", err
+			}
+			op := map[token.Token]string{token.LSS: "<", token.LEQ: "≤", token.GTR: ">", token.GEQ: "≥", token.EQL: "=", token.NEQ: "≠"}[x.Op]
+			return "(decide (" + l + " " + op + " " + r + "))", nil
+		}
+	}
+	return "", fmt.Errorf("unsupported boolean expression shape: %s", flat(fset, e))
+}
+
+// dgLitToLean: a literal with its polarity
+func dgLitToLean(fset *token.FileSet, c cond, atom func(string) (string, bool)) (string, error) {
+	s, err := dgBoolToLean(fset, c.e, atom)
 	if err != nil {
 		return "", err
 	}
-	fn := findFunc(f, fnName)
+	if !c.pos {
+		return "(!" + s + ")", nil
+	}
+	return s, nil
+}
+
+// dgMentions: does the printed expression contain a sub-expression the atom function maps to one of the wanted names?
+func dgMentions(fset *token.FileSet, e ast.Expr, atom func(string) (string, bool), want ...string) bool {
+	hit := false
+	ast.Inspect(e, func(n ast.Node) bool {
+		x, ok := n.(ast.Expr)
+		if !ok || hit {
+			return !hit
+		}
+		switch x.(type) {
+		case *ast.Ident, *ast.SelectorExpr, *ast.CallExpr:
+		default:
+			return true
+		}
+		if v, ok := atom(flat(fset, stripParens(x))); ok {
+			for _, w := range want {
+				if v == w {
+					hit = true
+				}
+			}
+			return false
+		}
+		return true
+	})
+	return hit
+}
+
+// dgPureRef: the printed form of a variable / field reference (identifiers, selectors, indexing, & and *), no operators
+func dgPureRef(s string) bool {
+	if s == "" {
+		return false
+	}
+	for _, c := range s {
+		switch {
+		case c >= 'a' && c <= 'z', c >= 'A' && c <= 'Z', c >= '0' && c <= '9':
+		case c == '_' || c == '.' || c == '(' || c == ')' || c == '[' || c == ']' || c == '&' || c == '*':
+		default:
+			return false
+		}
+	}
+	return true
+}
+
+func dgReturnsNonNilLast(s ast.Stmt) bool {
+	r, ok := s.(*ast.ReturnStmt)
+	if !ok || len(r.Results) == 0 {
+		return false
+	}
+	id, isId := stripParens(r.Results[len(r.Results)-1]).(*ast.Ident)
+	return !(isId && id.Name == "nil")
+}
+
+// ---------------------------------------------------------------------------------------------------------------
+
+const hsDir = "smartcontract/service/native/cross_chain/header_sync"
+
+// b = len(<anything>.Bookkeepers), p = len(<anything>.PeerMap)
+func hsAtom(s string) (string, bool) {
+	if strings.HasPrefix(s, "len(") && strings.HasSuffix(s, ")") && balanced(s[4:len(s)-1]) {
+		in := s[4 : len(s)-1]
+		switch {
+		case strings.HasSuffix(in, ".Bookkeepers"):
+			return "b", true
+		case strings.HasSuffix(in, ".PeerMap"):
+			return "p", true
+		}
+	}
+	return "", false
+}
+
+func genHeaderSync(repo string) (string, error) {
+	const fnName = "VerifyHeader"
+	site := hsDir + ":" + fnName
+	fset, funcs, err := pkgFuncs(repo, hsDir)
+	if err != nil {
+		return "", err
+	}
+	fn := funcs[fnName]
 	if fn == nil {
-		return "", fmt.Errorf("%s: func %s not found", file, fnName)
+		return "", fmt.Errorf("%s: func %s not found", hsDir, fnName)
 	}
-	atoms := map[string]string{"len(header.Bookkeepers)": "b", "len(consensusPeer.PeerMap)": "p"}
+	sites := dgSites(funcs, fn, 3)
 
-	// the first `if <lhs> OP <rhs> { return <error> }` whose condition mentions len(header.Bookkeepers)
-	var cmp *ast.BinaryExpr
-	ast.Inspect(fn.Body, func(n ast.Node) bool {
-		ifs, ok := n.(*ast.IfStmt)
-		if !ok || cmp != nil {
-			return true
-		}
-		be, ok := ifs.Cond.(*ast.BinaryExpr)
-		if !ok || !strings.Contains(exprString(fset, be), "len(header.Bookkeepers)") {
-			return true
-		}
-		if len(ifs.Body.List) == 0 {
-			return true
-		}
-		if _, isRet := ifs.Body.List[len(ifs.Body.List)-1].(*ast.ReturnStmt); !isRet {
-			return true
-		}
-		cmp = be
-		return true
-	})
-	if cmp == nil {
-		return "", fmt.Errorf("%s:%s: rejecting comparison on len(header.Bookkeepers) not found", file, fnName)
+	// (1) the count condition: innermost guard of an error return that compares b with p
+	type rej struct {
+		lean, src string
 	}
-	lhs, err := intExprToLean(fset, cmp.X, atoms)
-	if err != nil {
-		return "", fmt.Errorf("%s:%s: %v", file, fnName, err)
+	var rejects []rej
+	for _, st := range sites {
+		if !dgReturnsNonNilLast(st.stmt) || len(st.guards) == 0 {
+			continue
+		}
+		g := st.guards[len(st.guards)-1]
+		if !(dgMentions(fset, g.e, hsAtom, "b") && dgMentions(fset, g.e, hsAtom, "p")) {
+			continue
+		}
+		// the literals of that guard (a conjunction): all of them must be about the two counts
+		lits := dgLiterals([]cond{g})
+		lean := ""
+		for _, l := range lits {
+			one, err := dgLitToLean(fset, l, hsAtom)
+			if err != nil {
+				return "", fmt.Errorf("%s: count condition: %v", site, err)
+			}
+			if lean == "" {
+				lean = one
+			} else {
+				lean = "(" + lean + " && " + one + ")"
+			}
+		}
+		src := flat(fset, g.e)
+		if !g.pos {
+			src = "!(" + src + ")"
+		}
+		rejects = append(rejects, rej{lean, src})
 	}
-	rhs, err := intExprToLean(fset, cmp.Y, atoms)
-	if err != nil {
-		return "", fmt.Errorf("%s:%s: %v", file, fnName, err)
+	if len(rejects) == 0 {
+		return "", fmt.Errorf("%s: no error return guarded by a comparison of len(..Bookkeepers) with len(..PeerMap) found (helpers of the package followed)", site)
 	}
-	var rel string
-	switch cmp.Op {
-	case token.LSS:
-		rel = "decide (%s < %s)"
-	case token.LEQ:
-		rel = "decide (%s ≤ %s)"
-	case token.GTR:
-		rel = "decide (%s > %s)"
-	case token.GEQ:
-		rel = "decide (%s ≥ %s)"
-	default:
-		return "", fmt.Errorf("%s:%s: unexpected operator %s in the count condition", file, fnName, cmp.Op)
+	for _, r := range rejects[1:] {
+		if r.lean != rejects[0].lean {
+			return "", fmt.Errorf("%s: several different count conditions reject a header: %s / %s", site, rejects[0].src, r.src)
+		}
 	}
 
-	// signature.VerifyMultiSignature(hash[:], header.Bookkeepers, <m>, header.SigData)
-	var call *ast.CallExpr
-	ast.Inspect(fn.Body, func(n ast.Node) bool {
-		if ce, ok := n.(*ast.CallExpr); ok && call == nil && exprString(fset, ce.Fun) == "signature.VerifyMultiSignature" {
-			call = ce
+	// (2) signature.VerifyMultiSignature(hash, <..>.Bookkeepers, m, <..>.SigData)
+	type vm struct{ keys, sigs, m string }
+	var calls []vm
+	for _, st := range sites {
+		var err2 error
+		ast.Inspect(st.stmt, func(n ast.Node) bool {
+			ce, ok := n.(*ast.CallExpr)
+			if !ok || !strings.HasSuffix(flat(fset, ce.Fun), "VerifyMultiSignature") || len(ce.Args) != 4 {
+				return true
+			}
+			m, e := intExprToLeanF(fset, st.f.norm(ce.Args[2]), hsAtom)
+			if e != nil {
+				err2 = e
+				return false
+			}
+			calls = append(calls, vm{flat(fset, st.f.norm(ce.Args[1])), flat(fset, st.f.norm(ce.Args[3])), m})
+			return true
+		})
+		if err2 != nil {
+			return "", fmt.Errorf("%s: threshold argument of VerifyMultiSignature: %v", site, err2)
 		}
-		return true
-	})
-	if call == nil || len(call.Args) != 4 {
-		return "", fmt.Errorf("%s:%s: call signature.VerifyMultiSignature(data, keys, m, sigs) not found", file, fnName)
 	}
-	if k := exprString(fset, call.Args[1]); k != "header.Bookkeepers" {
-		return "", fmt.Errorf("%s:%s: VerifyMultiSignature keys argument is %q, expected header.Bookkeepers", file, fnName, k)
+	if len(calls) != 1 {
+		return "", fmt.Errorf("%s: expected exactly one call VerifyMultiSignature(data, keys, m, sigs), found %d", site, len(calls))
 	}
-	if k := exprString(fset, call.Args[3]); k != "header.SigData" {
-		return "", fmt.Errorf("%s:%s: VerifyMultiSignature sigs argument is %q, expected header.SigData", file, fnName, k)
+	if !strings.HasSuffix(calls[0].keys, ".Bookkeepers") {
+		return "", fmt.Errorf("%s: VerifyMultiSignature keys argument is %q, expected the header's Bookkeepers", site, calls[0].keys)
 	}
-	m, err := intExprToLean(fset, call.Args[2], atoms)
-	if err != nil {
-		return "", fmt.Errorf("%s:%s: %v", file, fnName, err)
+	if !strings.HasSuffix(calls[0].sigs, ".SigData") {
+		return "", fmt.Errorf("%s: VerifyMultiSignature sigs argument is %q, expected the header's SigData", site, calls[0].sigs)
 	}
 
 	var sb strings.Builder
 	sb.WriteString("set_option linter.unusedVariables false\nnamespace OntVerif.Gen.HeaderSync\n\n")
-	fmt.Fprintf(&sb, "/-- %s:%s — the header is rejected when this holds (b = len(header.Bookkeepers), p = len(consensusPeer.PeerMap)). Go source: `%s` -/\n",
-		file, fnName, exprString(fset, cmp))
-	fmt.Fprintf(&sb, "def countRejects (b p : Nat) : Bool := "+rel+"\n\n", lhs, rhs)
-	fmt.Fprintf(&sb, "/-- %s:%s — the m handed to VerifyMultiSignature(hash, header.Bookkeepers, m, header.SigData). Go source: `%s` -/\n",
-		file, fnName, exprString(fset, call.Args[2]))
-	fmt.Fprintf(&sb, "def multisigM (b p : Nat) : Nat := %s\n\n", m)
+	fmt.Fprintf(&sb, "/-- %s — the header is rejected when this holds (b = len(header.Bookkeepers), p = len(consensusPeer.PeerMap)); "+
+		"guard of the error return, locals inlined, helper parameters substituted -/\n", site)
+	fmt.Fprintf(&sb, "def countRejects (b p : Nat) : Bool := %s\n\n", rejects[0].lean)
+	fmt.Fprintf(&sb, "/-- %s — the m handed to VerifyMultiSignature(hash, header.Bookkeepers, m, header.SigData) -/\n", site)
+	fmt.Fprintf(&sb, "def multisigM (b p : Nat) : Nat := %s\n\n", calls[0].m)
 	sb.WriteString("end OntVerif.Gen.HeaderSync\n")
 	return sb.String(), nil
 }
